@@ -133,6 +133,16 @@ CHECKS = {
          'bounded-exhaustive names x generated directory layouts, containment oracle via file markers',
          'DESIGN.md section 4 C15'),
 
+ 'C16': ('exploration',
+         'Every word of length <= 3/4 over 14 lexemes at every lexeme boundary and every word of length <= 2/4 over the raw characters at every position x 39 legacy call variants (get_token x brace/environment flags, '
+         'get_latex_nodes x 7 stop conditions x read_max_nodes, get_latex_expression x strict_braces, get_latex_braced_group x 5 brace types, get_latex_environment x names, get_latex_maybe_optional_arg) x strict/tolerant walkers, '
+         'compared (result canonical tree, pos, len; or failure kind) with an independent restatement through the pylatexenc-3 parser objects; structurally, stop-condition calls started after "{", "$", \\begin{itemize} must return '
+         'the contents and end of the node the v3 parsers build there. Spec spellings: all 121 argument strings over {*,[,{} through 7-9 macro spellings and 4 environment spellings x every input \\n.w, w of length <= 3/4 over 7 characters: '
+         'same arguments, positions, argspec and legacy nodeoptarg/nodeargs whenever the v3 declaration succeeds.',
+         'Trusted: the v3 restatements in mc/checks/c16.py. When the v3 declaration fails on an input, legacy spellings may raise or return their documented empty result (only crashes are reported).',
+         'bounded-exhaustive words x positions x legacy variants, differential against equivalent v3 parser objects (literal + structural)',
+         'DESIGN.md section 4 C16'),
+
  'C11': ('model_checking',
          'Explicit-state exploration of the real LatexTokenReader: every state (remaining input, configuration) for all words of length '
          '<= 3 (quick) / 4 (thorough) over a 15-symbol alphabet x 6172 configurations (math mode and delimiter, 2^7 enable_* switches, extra group '
